@@ -90,6 +90,10 @@ def cases_step(tier):
                 for inc in (False, True):
                     yield "%s/%s/tol=%s/plain/%s" % (what, "".join(k if k != "F0" else "f" for k in kinds), tol, "incumbent" if inc else "empty"), {
                         "what": what, "kinds": list(kinds), "tol": tol, "flip": False, "incumbent": inc}
+    # the event type given as the plain integer of the enumeration (EventType is an IntEnum; Event does not convert): same event
+    for what in ("best", "last"):
+        for tname in ("int", "numpy-int"):
+            yield "%s/F/tol=none/plain/incumbent/event-type-as-%s" % (what, tname), {"what": what, "kinds": ["F"], "tol": "none", "flip": False, "incumbent": True, "event_type_as": tname}
     for ev in ("foreign-source", "other-event", "no-results"):
         yield "ignored/%s" % ev, {"what": "best", "kinds": ["F"], "tol": "none", "flip": False, "incumbent": True, "ignore": ev}
 
@@ -127,7 +131,10 @@ def scn_step(T, case):
     if case["flip"]:
         data["transformed_results"] = opt
     ign = case.get("ignore")
-    ev = Event(event_type=EventType.START_EVALUATION if ign == "other-event" else EventType.FINISHED_EVALUATION, config=None,
+    etype = EventType.START_EVALUATION if ign == "other-event" else EventType.FINISHED_EVALUATION
+    if case.get("event_type_as"):
+        etype = int(etype) if case["event_type_as"] == "int" else np.int64(int(etype))
+    ev = Event(event_type=etype, config=None,
                source=foreign if ign == "foreign-source" else src, data={} if ign == "no-results" else data)
     trk.handle_event(ev)
     got = trk["results"]
